@@ -234,9 +234,17 @@ def gen_term_case(r, idx, wild=False, nops=None, kinds=None):
                 t = [r.below(256) for _ in range(r.below(5))]
             lines.append("T 0 title " + hexs(t))
         else:
-            w, h = r.rng(1, 9), r.rng(1, 5)
+            c = r.below(6)
+            if c == 0 and w:
+                h = r.rng(1, 5)         # height only
+            elif c == 1 and w:
+                w = r.rng(1, 9)         # width only
+            elif c == 2 and w:
+                pass                    # the same size again
+            else:
+                w, h = r.rng(1, 9), r.rng(1, 5)
             lines.append("T 0 size %d %d" % (w, h))
-            cur = None
+            # cur is kept: later moves aim at where a stale belief would be
     lines.append("END")
     return lines
 
@@ -437,6 +445,18 @@ def gen_items(r, n, allow_high=True, prev_bare=None):
     bare CR/LF (13/10) the previous delivery ended with, if any"""
     out = []
     while len(out) < n:
+        if n - len(out) >= 3 and r.chance(1, 6):
+            # a history aimed at state carried between items: a bare CR or LF,
+            # printable text, then Enter (or Ctrl-@) in another spelling
+            f = r.pick([3, 4])
+            if (prev_bare == 13 and f == 4) or (prev_bare == 10 and f == 3):
+                continue
+            out.append("IT enter %d" % f)
+            for _ in range(r.rng(1, min(3, n - len(out) - 1))):
+                out.append("IT char %d" % r.rng(32, 126))
+            out.append(r.pick(["IT enter %d" % (4 if f == 3 else 3), "IT enter %d" % r.below(5), "IT char 0", "IT enter 4", "IT enter 3"]))
+            prev_bare = last_bare(out)
+            continue
         txt, first = gen_item(r, allow_high)
         if prev_bare == 13 and first in (10, 0):
             continue
